@@ -489,3 +489,16 @@ def scalar_mirror_ok(spans, little, big):
     if covered != len(little):
         return 'span map covers %d of %d bytes' % (covered, len(little))
     return None
+
+
+def differs_only_in_padding(spans, expected, got):
+    """True if got has the expected length and equals expected outside pad / fill spans, i.e. the
+    implementation demonstrably uses the oracle's layout and the span map may be applied to it."""
+    if len(expected) != len(got):
+        return False
+    for sp in spans:
+        if sp.role.startswith('pad') or sp.role.startswith('fill'):
+            continue
+        if expected[sp.start:sp.start + sp.length] != got[sp.start:sp.start + sp.length]:
+            return False
+    return True
